@@ -1,6 +1,7 @@
 """C18 — filter definitions mean the same in every encoding and survive re-serialisation."""
 import base64
 import json
+import os
 import re
 from decimal import Decimal as D
 
@@ -983,10 +984,60 @@ class C18(PropBase):
                 if rng.random() < 0.35:
                     xs.append(base64.b64encode(raw).decode())
             out.append({"op": "b64", "kind": "b64-contract", "xs": xs, "hs": hs})
+        # ---- the command-line route (`--api-filter-def <text>`): the option value reaches the definition reader as it
+        #      is; a malformed value (the empty string included) ends the run with an error and no report
+        good = '{"txnFilter":{"TxnFilterTxnDescription":{"regex":"keep.*"}}}'
+        clis = [("valid", good, True), ("valid-armor", ARMOR + b64(good), True),
+                ("empty", "", False), ("blank", "  ", False), ("truncated", good[:-1], False),
+                ("trailing", good + "}", False), ("two-docs", good + good, False), ("armor-empty", ARMOR, False),
+                ("armor-bad", ARMOR + "!!!", False), ("not-json", "keep", False), ("null", "null", False),
+                ("empty-object", "{}", False), ("unknown-variant", '{"txnFilter":{"TxnFilterNope":{}}}', False)]
+        for name, text, ok in clis:
+            out.append({"op": "clidef", "kind": "cli:" + name, "def": text, "valid": ok})
         return out
 
     # -------------------------------------------------------------------------- running
+    needs_cli = True
+
+    def run_cli(self, case):
+        import subprocess
+        import tempfile
+        d = tempfile.mkdtemp(prefix="c18-cli-", dir=os.path.join(common.BUILD, "tmp"))
+        try:
+            with open(os.path.join(d, "j.txn"), "w") as f:
+                f.write("2024-01-01 'keep one\n e:x  1\n a:cash\n\n2024-01-02 'drop two\n e:y  2\n a:cash\n")
+            with open(os.path.join(d, "t.toml"), "w") as f:
+                f.write('[kernel]\nstrict = false\naudit = { mode = false, hash = "SHA-256" }\n'
+                        'timestamp = { default-time = 00:00:00, timezone = { name = "UTC" } }\n'
+                        'input = { storage = "fs", fs = { path = ".", dir = ".", suffix = "txn" } }\n'
+                        '[transaction]\naccounts = { path = "none" }\ncommodities = { path = "none" }\ntags = { path = "none" }\n'
+                        '[report]\nreport-timezone = "UTC"\nscale = { min = 2, max = 2 }\naccounts = [ ]\ntargets = [ "register" ]\n'
+                        'balance = { title = "BALANCE" }\nbalance-group = { title = "BALANCE GROUP", group-by = "month" }\n'
+                        'register = { title = "REGISTER" }\n[export]\ntargets = [ ]\n'
+                        'equity = { accounts = [ ], equity-account = "Equity:Balance" }\n')
+            p = subprocess.run([common.TK_CLI, "--config", os.path.join(d, "t.toml"), "--input.file", os.path.join(d, "j.txn"),
+                                "--api-filter-def", case["def"]], stdout=subprocess.PIPE, stderr=subprocess.PIPE, timeout=60)
+            so = p.stdout.decode("utf-8", "replace")
+            return {"r": "OK", "rc": p.returncode, "report": "REGISTER" in so, "keep": "keep one" in so, "drop": "drop two" in so,
+                    "stderr": p.stderr.decode("utf-8", "replace")[-300:]}
+        except Exception as e:  # noqa: BLE001
+            return {"r": "RUNNERERR", "msg": str(e)[:300]}
+        finally:
+            import shutil
+            shutil.rmtree(d, ignore_errors=True)
+
     def run_impl(self, cases):
+        cli_idx = [i for i, c in enumerate(cases) if c.get("op") == "clidef"]
+        if cli_idx:
+            os.makedirs(os.path.join(common.BUILD, "tmp"), exist_ok=True)
+            rest_idx = [i for i, c in enumerate(cases) if c.get("op") != "clidef"]
+            rest = self.run_impl([cases[i] for i in rest_idx]) if rest_idx else []
+            out = [None] * len(cases)
+            for i, a in zip(rest_idx, rest):
+                out[i] = a
+            for i in cli_idx:
+                out[i] = self.run_cli(cases[i])
+            return out
         first = common.run_driver([common.TK_IMPL], cases)
         idx = [i for i, c in enumerate(cases) if c.get("plain") is not None]
         second = common.run_driver([common.TK_IMPL], [dict(cases[i], **{"def": cases[i]["plain"], "force": None}) for i in idx])
@@ -995,11 +1046,13 @@ class C18(PropBase):
         return first
 
     def impl_case(self, case):
-        if case.get("op") == "b64":
+        if case.get("op") in ("b64", "clidef"):
             return case
         return {k: v for k, v in case.items() if k in ("op", "def", "off", "cfg", "text", "force", "plain")}
 
     def model_case(self, case):
+        if case.get("op") == "clidef":
+            return None     # command-line glue: implementation and oracle only
         if case.get("op") == "b64":
             return case
         c = {k: v for k, v in case.items() if k in ("op", "def", "off", "txns", "force")}
@@ -1049,6 +1102,18 @@ class C18(PropBase):
         r = impl.get("r")
         if r in ("PANIC", "ABORT", "TIMEOUT"):
             return {"sig": "crash", "what": "reading a filter definition crashed: %s" % r}
+        if case.get("op") == "clidef":
+            if r != "OK":
+                return {"sig": "cli-runner", "what": "binary could not be run: %s" % str(impl)[:200]}
+            if case["valid"]:
+                if impl["rc"] != 0 or not impl["keep"] or impl["drop"]:
+                    return {"sig": "cli-valid-definition", "what": "valid definition on the command line: exit %s, selected keep=%s drop=%s: %s" % (
+                        impl["rc"], impl["keep"], impl["drop"], impl["stderr"])}
+                return None
+            if impl["rc"] == 0 or impl["report"]:
+                return {"sig": "cli-malformed-accepted", "what": "malformed --api-filter-def %r: exit %s, report printed: %s (ignored instead of rejected)" % (
+                    case["def"], impl["rc"], impl["report"])}
+            return None
         if case.get("op") == "b64":
             # x is accepted exactly when it is the canonical encoding of some byte string
             for x, d in zip(case["xs"], impl.get("dec", [])):
